@@ -23,6 +23,7 @@ TRUSTED = ['scipy.stats.norm.ppf is the standard normal quantile: positive above
            'sklearn LogisticRegression/LinearRegression as cross-fit learners; probe hook in TMLE.fit']
 
 ALPHAS = [0.05, 0.049999, 0.5, 1e-6, 0.999, 0.01, 0.2]
+NAN_SEEN = [0]
 IMPORTS = ec.IMPORTS + ['Zepid.Model.Variance', 'Zepid.Spec.Measures']
 
 
@@ -42,6 +43,11 @@ def wald_ok(est, lo, hi, se, alpha, log, zval=None, tol=1e-9):
 def check_family(fails, key, what, per_alpha, log, payload, size, known_z=None):
     """per_alpha: {alpha: (est, lo, hi, se)} from the same data. checks formula, containment, nestedness, alpha-independence"""
     al = sorted(per_alpha)
+    if any(v != v for a in al for v in per_alpha[a]):
+        # an estimator that returns NaN (e.g. a learner extrapolating outside the unit range) reports no interval at all:
+        # nothing to be coherent about; counted, not judged here
+        NAN_SEEN[0] += 1
+        return
     for a in al:
         est, lo, hi, se = per_alpha[a]
         zval = known_z(a) if known_z else None
@@ -91,6 +97,16 @@ def calc_part(ctx, fails):
             for a in ALPHAS:
                 r = getattr(zc, f)(*args, alpha=a)
                 fam[f][1][a] = (float(r.point_estimate), float(r.lower_bound), float(r.upper_bound), float(r.standard_error))
+        for a in ALPHAS:       # NNT: limits are the reciprocals of the RD limits AT THE SAME alpha, SE is the RD's SE
+            r = zc.number_needed_to_treat(*t, alpha=a)
+            rdv = fam['risk_difference'][1][a]
+            for got, want in ((float(r.lower_bound), rdv[1]), (float(r.upper_bound), rdv[2])):
+                exp = (1 / want) if want != 0 else float('inf')
+                if not (got == exp or abs(got - exp) <= 1e-9 * max(1, abs(exp))):
+                    fails.append((0, 'calc.number_needed_to_treat.limits', 'number_needed_to_treat%r at alpha=%g: limit %r is not the reciprocal '
+                                  'of the risk-difference limit %r at that alpha' % (t, a, got, want), {'part': 'calc', 'table': t, 'alpha': a}))
+            if abs(float(r.standard_error) - rdv[3]) > 1e-12:
+                fails.append((0, 'calc.number_needed_to_treat.se', 'NNT SE differs from the RD SE for %r' % (t,), {'part': 'calc', 'table': t}))
         rc = {}
         for a in ALPHAS:
             r = zc.risk_ci(t[0], t[0] + t[1], alpha=a)
@@ -420,6 +436,7 @@ def run(ctx):
     iptw_part(ctx, fails)
     pool_part(ctx, fails)
     crossfit_part(ctx, fails)
+    ctx.extra['families_with_nan_estimate_skipped'] = NAN_SEEN[0]
     report(ctx, fails)
 
 
